@@ -114,9 +114,17 @@ TrRT ==
   /\ gh' = Put(gh, Ev.to, gh[Ev.id])
   /\ On("C11") => (Ev.same /\ Ev.eq)
 
+\* union / intersect are defined between filters of one configuration only (Bloom.tla Compatible, and
+\* the seed, which decides the probes): anything else is refused, and is_compatible says so beforehand
+TrTry ==
+  /\ IsEv("BTry")
+  /\ On("C09") => LET same == Ev.a.cap = Ev.b.cap /\ Ev.a.k = Ev.b.k /\ Ev.a.seed8 = Ev.b.seed8 IN
+                    Ev.accepted = same /\ Ev.compat = same
+  /\ UNCHANGED <<obj, gh>>
+
 TrPanic == IsEv("Panic") /\ FALSE /\ UNCHANGED <<obj, gh>>
 
-TNext == TrRun \/ TrNew \/ TrIns \/ TrCai \/ TrQ \/ TrUnion \/ TrInter \/ TrInvert \/ TrReset
+TNext == TrRun \/ TrTry \/ TrNew \/ TrIns \/ TrCai \/ TrQ \/ TrUnion \/ TrInter \/ TrInvert \/ TrReset
          \/ TrChk \/ TrRT \/ TrLoad \/ TrPanic
 TSpec == TInit /\ [][TNext]_tvars
 
